@@ -57,8 +57,7 @@ impl C10 {
         {
             let l1 = to_lax(&f.to_lax());
             let l2 = l1.clone();
-            #[allow(deprecated)]
-            let a = lib(ctx, "to_open_hypergraph", "any", &input, move || l1.to_open_hypergraph());
+            let a = lib(ctx, "to_open_hypergraph", "any", &input, move || crate::compat::to_open_hypergraph(l1)).flatten();
             let b = lib(ctx, "to_strict", "any", &input, move || l2.to_strict());
             if let (Some(a), Some(b)) = (a, b) {
                 let (pa, pb) = (from_strict(&a).ok(), from_strict(&b).ok());
@@ -180,7 +179,12 @@ impl C10 {
         };
         // each operand: the library's quotient-and-convert agrees with the model quotient
         for (name, l, m, pl) in [("f", &lf, &sf_, &f), ("g", &lg, &sg_, &g)] {
-            ctx.check(l.hypergraph.is_strict() == pl.q.is_empty(), "is_strict/iff-no-pending-unifications/value/any", || json!({"input": input(), "operand": name}));
+            // no pending pairs => strict; the converse (e.g. for trivial self pairs) is recorded only
+            if pl.q.is_empty() {
+                ctx.check(l.hypergraph.is_strict(), "is_strict/true-without-pending-unifications/value/operand", || json!({"input": input(), "operand": name}));
+            } else {
+                ctx.count(if l.hypergraph.is_strict() { "observed:is_strict_true_with_pending_pairs" } else { "observed:is_strict_false_with_pending_pairs" });
+            }
             if let Some(p) = strictified(ctx, "to_strict", "operand", l, &input) {
                 ctx.count("law:to_strict-is-the-model-quotient");
                 expect_iso(ctx, "to_strict", "is-the-model-quotient", "operand", &p, m, &input);
